@@ -310,6 +310,14 @@ LGTerms ==
      Op("equals", <<App("f2a", F2A, <<K1s, K2s>>), App("f2a", F2A, <<K2s, K1s>>)>>),
      Op("equals", <<App("f3s", F3S, <<Xx, Yy, Xx>>), App("f3s", F3S, <<Yy, Xx, Yy>>)>>),
      Op("equals", <<App("f2s", F2S, <<P, Qs>>), App("f2s", F2S, <<Qs, P>>)>>),
+     \* a sort that occurs ONLY as the index / element sort of an INNER array sort (two and three levels down)
+     Op("equals", <<Sym("nb", TArray(TInt, TArray(TBV(4), TInt))), Sym("nb2", TArray(TInt, TArray(TBV(4), TInt)))>>),
+     Op("equals", <<Sym("nr", TArray(TInt, TArray(TReal, TInt))), Sym("nr2", TArray(TInt, TArray(TReal, TInt)))>>),
+     Op("equals", <<Sym("ns", TArray(TInt, TArray(TString, TInt))), Sym("ns2", TArray(TInt, TArray(TString, TInt)))>>),
+     Op("equals", <<Sym("nk", TArray(TInt, TArray(TSs, TInt))), Sym("nk2", TArray(TInt, TArray(TSs, TInt)))>>),
+     Op("equals", <<Sym("n3", TArray(TBV(2), TArray(TBV(2), TArray(TInt, TBV(2))))), Sym("n3b", TArray(TBV(2), TArray(TBV(2), TArray(TInt, TBV(2)))))>>),
+     Op("equals", <<Sym("n4", TArray(TArray(TReal, TInt), TInt)), Sym("n4b", TArray(TArray(TReal, TInt), TInt))>>),
+     Quant("forall", <<BVar("n5", TArray(TInt, TArray(TReal, TInt)))>>, P),
      Op("equals", <<Op("int_to_str", <<Xx>>), Op("int_to_str", <<Yy>>)>>),
      Op("equals", <<Op("int_to_str", <<Xx>>), Ss>>),
      Op("le", <<Op("str_length", <<Ss>>), IntC(3)>>), Op("lt", <<Op("str_to_int", <<Ss>>), Xx>>),
